@@ -45,7 +45,8 @@ INT_COLS = {'trajectories.txt': [0], 'records_camera.txt': [0], 'records_depth.t
 
 
 def gen_case(rng):
-    opts = kgen.Opts(p_part=rng.choice([0.5, 0.9]), id_pool=4, fancy_ids=True, max_rows=5, image_pool=5, partial_poses=True, odd_paths=True)
+    opts = kgen.Opts(p_part=rng.choice([0.5, 0.9]), id_pool=4, fancy_ids=True, max_rows=5, image_pool=5, partial_poses=True, odd_paths=True,
+                     nested_rigs=rng.random() < 0.4)
     # 'before': what the same process loaded just before (nothing, a legacy 1.0 directory, a directory of a newer version that
     # is refused): what a conformant directory loads to must not depend on it
     return {'d': kgen.gen_dataset(rng, opts), 'layout': rng.randrange(10 ** 9), 'before': rng.choice([None, None, '1.0', '1.0', '2.0'])}
